@@ -362,6 +362,122 @@ def s_readfile(vc):
 
 
 # =============================================================================================
+# addons/save.py: the stream file stays complete while the file name rotates.
+#   Save.save_flow: contract shared with C39 (the flow goes to the stream that is current AFTER the rotation step)
+#   Save.maybe_rotate_to_new_file: "a new file is opened every time the formatted string changes" - and ONLY then
+
+SVR = "mitmproxy.addons.save:Save"
+
+
+@scenario("Save.save_flow", functions=[SVR + ".save_flow"])
+def s_save_flow_c37(vc):
+    from props import C39
+    return C39.s_save_flow.fn(vc)
+
+
+class StubNow:
+    def strftime(self, fmt):  # pragma: no cover - replaced by a summary (scripted clock)
+        raise NotImplementedError
+
+
+class StubDatetime:
+    """stand-in for datetime.datetime inside addons/save.py (settable clock)"""
+
+    @staticmethod
+    def today():
+        return StubNow()
+
+
+class StubDir:
+    def mkdir(self, parents=False, exist_ok=False):
+        return None
+
+
+class StubPath:
+    """stand-in for pathlib.Path: remembers the spelling it was built from; str() gives pathlib's NORMALISED spelling, which
+    may differ from it ('dir/./x', 'dir//x', './x'); open() is an environment effect (summary)"""
+
+    def __init__(self, raw):
+        self.raw = raw
+        self.parent = StubDir()
+
+    def open(self, mode="r"):  # pragma: no cover - replaced by a summary
+        raise NotImplementedError
+
+    def __str__(self):  # pragma: no cover - replaced by a summary
+        raise NotImplementedError
+
+
+def patch_global(vc, modname, name, value):
+    """rebind a module-level name of the code under contract for this run (both modes; undone after a native run)"""
+    import importlib
+    if vc.mode == "sym":
+        vc.ex.module_globals[(modname, name)] = lift(value)
+        return
+    mod = importlib.import_module(modname)
+    vc._patches.append((mod, name, getattr(mod, name), True))
+    setattr(mod, name, value)
+
+
+@scenario("Save.maybe_rotate_to_new_file", functions=[SVR + ".maybe_rotate_to_new_file", "mitmproxy.addons.save:_mode"])
+def s_rotate(vc):
+    """Two consecutive rotation checks starting without a stream. The clock/strftime yields the formatted names n1 then n2
+    (symbolic); pathlib may normalise a spelling to a different string (norm1/norm2, symbolic, equal for equal spellings)."""
+    from props import C39
+    append = vc.case("mode", [False, True])
+    spec = ("+" if append else "") + "/data/flows-%H%M"
+    C39.set_ctx_options(vc, save_stream_file=spec, save_stream_filter=None)
+    n1, n2 = vc.sym_str("formatted_name_1"), vc.sym_str("formatted_name_2")
+    norm1, norm2x = vc.sym_str("pathlib_spelling_1"), vc.sym_str("pathlib_spelling_2")
+    same = vc.branch(n1 == n2)
+    names = [n1, n1 if same else n2]
+    norms = [norm1, norm1 if same else norm2x]
+    flt = vc.new("mitmproxy.flowfilter:FAll", pattern="f")
+    sa = vc.new(SVR, stream=None, filt=flt, active_flows=C39.mk_set(vc, []), current_path=None)
+    calls, opens, files = [0], [], []
+
+    def strftime_summary(v, self_, fmt):
+        calls[0] += 1
+        return names[min(calls[0], 2) - 1]
+
+    def open_summary(v, self_, mode="r"):
+        fo = mk_file(v, b"", 0)
+        opens.append((self_.raw, mode, fo))
+        return fo
+
+    def str_summary(v, self_):
+        return norms[0] if len(opens) == 0 else norms[1]      # spelling of the path object being opened (1st / 2nd)
+
+    patch_global(vc, "mitmproxy.addons.save", "datetime", StubDatetime)
+    patch_global(vc, "mitmproxy.addons.save", "Path", StubPath)
+    vc.summary("mitmproxy.addons.save:_path", lambda v, p: "/data/flows-%H%M")
+    vc.summary("props.C37:StubNow.strftime", strftime_summary)
+    vc.summary("props.C37:StubPath.open", open_summary)
+    vc.summary("props.C37:StubPath.__str__", str_summary)
+    o1 = vc.call(SVR + ".maybe_rotate_to_new_file", sa)
+    vc.ensure("first.no_exception", o1.ok)
+    vc.ensure("first.opens_the_formatted_name_once", len(opens) == 1 and vc.eq(opens[0][0], n1))
+    if not o1.ok or len(opens) != 1:
+        return
+    vc.ensure("first.mode_append_iff_plus", opens[0][1] == ("ab" if append else "wb") if vc.mode == "native" else opens[0][1].concrete() == ("ab" if append else "wb"))
+    w1 = sa.stream
+    vc.ensure("first.stream_writes_to_that_file_with_the_filter", w1 is not None and isnone(w1) is not True and w1.fo is opens[0][2] and w1.flt is flt)
+    o2 = vc.call(SVR + ".maybe_rotate_to_new_file", sa)
+    vc.ensure("second.no_exception", o2.ok)
+    if not o2.ok:
+        return
+    if same:
+        # the formatted name did not change: the open file must be left alone (re-opening with "wb" would empty it)
+        vc.ensure("same_name.no_reopen", len(opens) == 1)
+        vc.ensure("same_name.stream_kept_open", sa.stream is w1 and len_(opens[0][2].ops) == 0)
+    else:
+        vc.ensure("new_name.old_file_closed", And(len_(opens[0][2].ops) == 1, vc.eq(opens[0][2].closed, True)))
+        vc.ensure("new_name.opens_the_new_name_once", len(opens) == 2 and vc.eq(opens[1][0], n2))
+        if len(opens) == 2:
+            vc.ensure("new_name.stream_switched", sa.stream is not w1 and sa.stream.fo is opens[1][2] and sa.stream.flt is flt)
+
+
+# =============================================================================================
 # Writers: one write of exactly enc(state) per flow (+ flush for the stream writer), nothing for filtered-out flows
 
 
@@ -599,6 +715,147 @@ def _stream_save_sequences(b, tier, seed):
         _check_truncations(b, "stream:" + "+".join(combo), final, bounds, _states(expected_written + remaining_in_set_order(fm, remaining)), sorted(set(range(0, len(final) + 1, step)) | set(bounds) | {x - 1 for x in bounds[1:]} | {x + 1 for x in bounds[:-1]}))
 
 
+def _rd_ids(path):
+    import os
+    from props import ioflows
+    if not os.path.exists(path):
+        return [], "missing"
+    with open(path, "rb") as fh:
+        got, end = ioflows.read_all(fh)
+    return [f.id for f in got], end
+
+
+STREAM_HOOKS = {"http": ("request", "response"), "tcp": ("tcp_start", "tcp_end"), "udp": ("udp_start", "udp_end"), "dns": ("dns_request", "dns_response"),
+                "http_err": ("request", "error"), "tcp_err": ("tcp_start", "tcp_error")}
+
+
+def _stream_save_path_spellings(b, tier):
+    """real Save addon, real files: save_stream_file spelled in ways pathlib normalises ('/./', '//', trailing '/.', relative
+    './x'), overwrite and append mode; the file is re-read after EVERY hook: it holds every finished flow so far, in order"""
+    import os
+    import shutil
+    import tempfile
+    from mitmproxy.addons import save
+    from mitmproxy.test import taddons
+    from props import ioflows
+    d = tempfile.mkdtemp(prefix="c37-spell-")
+    cwd = os.getcwd()
+    try:
+        os.chdir(d)
+        spellings = [("plain", os.path.join(d, "a", "flows")), ("dot_segment", os.path.join(d, "b", ".", "flows")), ("double_slash", d + "//c//flows"),
+                     ("trailing_dot", os.path.join(d, "e", "flows") + "/."), ("relative_dot", "./rel-flows"), ("relative_plain", "rel2/flows"),
+                     ("dot_dir_parent", os.path.join(d, ".", "f", "flows"))]
+        kinds = ["http", "tcp", "dns", "udp"] if tier == "quick" else ["http", "tcp", "dns", "udp", "http_err", "tcp_err"]
+        for label, path in spellings:
+            for append in (False, True):
+                path = path.replace("flows", "flows-append") if append else path      # a file of its own per mode
+                spec = ("+" if append else "") + path
+                real_path = os.path.normpath(os.path.join(d, path))
+                sa = save.Save()
+                inp = {"save_stream_file": spec.replace(d, "<tmp>"), "spelling": label}
+                b.case(("stream-spelling", label, append), nontrivial=label != "plain")
+                try:
+                    with taddons.context(sa) as tctx:
+                        try:
+                            tctx.configure(sa, save_stream_file=spec)
+                            flows = [ioflows.mk_flow(k) for k in kinds]
+                            done_ids = []
+                            for f, k in zip(flows, kinds):
+                                getattr(sa, STREAM_HOOKS[k][0])(f)
+                            for f, k in zip(flows, kinds):
+                                getattr(sa, STREAM_HOOKS[k][1])(f)
+                                done_ids.append(f.id)
+                                ids, end = _rd_ids(real_path)
+                                if end != "clean" or ids != done_ids:
+                                    b.fail("stream.file_holds_every_finished_flow_after_each_hook", dict(inp, after=len(done_ids)),
+                                           f"expected {len(done_ids)} flows, file has {len(ids)} ({end})")
+                                    break
+                            tctx.configure(sa, save_stream_file=None)
+                            ids, end = _rd_ids(real_path)
+                            if end != "clean" or ids != done_ids:
+                                b.fail("stream.file_complete_after_shutdown", inp, f"expected {len(done_ids)} flows, file has {len(ids)} ({end})")
+                        finally:
+                            if sa.stream is not None:
+                                sa.done()
+                            tctx.master._legacy_log_events.uninstall()
+                except Exception as e:  # noqa: BLE001
+                    b.fail("stream.hooks_do_not_raise", inp, f"{type(e).__name__}: {e}")
+    finally:
+        os.chdir(cwd)
+        shutil.rmtree(d, ignore_errors=True)
+
+
+def _stream_save_clock_rotation(b, tier):
+    """strftime codes in save_stream_file and a settable clock: flows finishing before/after the formatted name changes.
+    After EVERY completion hook the finished flow is in exactly one file, every file reads back cleanly, no hook raises."""
+    import datetime as dt
+    import glob
+    import os
+    import shutil
+    import tempfile
+    from mitmproxy.addons import save
+    from mitmproxy.test import taddons
+    from props import ioflows
+    clock = [dt.datetime(2024, 5, 17, 10, 59, 30)]
+
+    class FakeDatetime(dt.datetime):
+        @classmethod
+        def today(cls):
+            return clock[0]
+
+    d = tempfile.mkdtemp(prefix="c37-clock-")
+    orig = save.datetime
+    save.datetime = FakeDatetime
+    try:
+        plans = [[0, 0, 40, 0], [40, 0, 0, 70], [0, 61, 61, 61], [0, 0, 0, 0], [3600, 1, 86400, 0]]      # seconds the clock advances before each completion
+        for pi, plan in enumerate(plans if tier == "thorough" else plans[:4]):
+            for append in (False, True):
+                sub = os.path.join(d, f"p{pi}{'a' if append else 'w'}")
+                spec = ("+" if append else "") + os.path.join(sub, "flows-%Y%m%d-%H%M")
+                kinds = ["http", "tcp", "dns", "udp"]
+                sa = save.Save()
+                inp = {"save_stream_file": "<tmp>/flows-%Y%m%d-%H%M", "mode": "append" if append else "overwrite", "clock_steps_s": plan}
+                b.case(("stream-clock", pi, append), nontrivial=any(plan))
+                clock[0] = dt.datetime(2024, 5, 17, 10, 59, 30)
+                try:
+                    with taddons.context(sa) as tctx:
+                        try:
+                            tctx.configure(sa, save_stream_file=spec)
+                            flows = [ioflows.mk_flow(k) for k in kinds]
+                            for f, k in zip(flows, kinds):
+                                getattr(sa, STREAM_HOOKS[k][0])(f)
+                            done_ids = []
+                            for f, k, step in zip(flows, kinds, plan):
+                                clock[0] = clock[0] + dt.timedelta(seconds=step)
+                                getattr(sa, STREAM_HOOKS[k][1])(f)
+                                done_ids.append(f.id)
+                                seen = []
+                                for p_ in sorted(glob.glob(os.path.join(sub, "flows-*"))):
+                                    ids, end = _rd_ids(p_)
+                                    if end != "clean":
+                                        b.fail("rotation.every_file_complete_after_each_hook", dict(inp, after=len(done_ids)), f"{os.path.basename(p_)}: {end}")
+                                    seen += ids
+                                if seen != done_ids:      # files sort by time, flows finish in time order
+                                    b.fail("rotation.finished_flow_written_once_in_time_order", dict(inp, after=len(done_ids)),
+                                           f"expected {len(done_ids)} finished flows across the files in order, found {len(seen)} (same set: {sorted(seen) == sorted(done_ids)})")
+                                    break
+                                newest = sorted(glob.glob(os.path.join(sub, "flows-*")))[-1]
+                                if os.path.basename(newest) != clock[0].strftime("flows-%Y%m%d-%H%M") or _rd_ids(newest)[0][-1:] != [f.id]:
+                                    b.fail("rotation.flow_goes_to_the_file_of_its_completion_time", dict(inp, after=len(done_ids)), os.path.basename(newest))
+                            tctx.configure(sa, save_stream_file=None)
+                        finally:
+                            if sa.stream is not None:
+                                sa.done()
+                            tctx.master._legacy_log_events.uninstall()
+                except BaseException as e:  # noqa: BLE001  (SystemExit from the OSError handler counts as well)
+                    if isinstance(e, KeyboardInterrupt):
+                        raise
+                    b.fail("rotation.hooks_do_not_raise", inp, f"{type(e).__name__}: {e}")
+    finally:
+        save.datetime = orig
+        shutil.rmtree(d, ignore_errors=True)
+
+
 def _readfile_addon(b, label, data, bounds, states, offsets, flt=None, flows=None):
     """addons/readfile.py: ReadFile.load_flows hands exactly the complete flows to the master, then returns the count
     (clean end) or raises FlowReadException"""
@@ -658,7 +915,10 @@ def bounded(tier, seed):
               "through the ReadFile addon (load_flows) without filter and with readfile_filter ~all / ~tcp | ~dns / ~http; "
               "(2) tnetstring.load vs an independent reference framing on all strings over '012:,~x' up to length 5 (6 thorough) plus 11..14 digit prefixes; "
               "(3) real Save addon driven through start/completion hooks of 2-3 flows of mixed types with shutdown at a seeded point, the stream's "
-              "file object replaced by the recording FileModel: durable bytes checked after every hook, then every (sampled in quick) truncation offset. "
+              "file object replaced by the recording FileModel: durable bytes checked after every hook, then every (sampled in quick) truncation offset; "
+              "(4) real Save on real files with save_stream_file spellings that pathlib normalises ('/./', '//', trailing '/.', './x', relative) in overwrite and "
+              "append mode, file re-read after every hook; (5) strftime file names with a settable clock crossing minute/hour/day boundaries between "
+              "completions: every finished flow is in exactly one file, in the file of its completion time, after every hook. "
               "distinct = distinct (file, cut) / string / hook sequence; non-trivial = cut strictly inside a record, non-empty string")
     b.bound = "<= 3 flows per file; truncation offsets: all (BytesIO), every 97th (real file); strings <= 5/6 bytes; hook sequences <= 3 flows"
     rnd = random.Random(seed)
@@ -680,4 +940,6 @@ def bounded(tier, seed):
             _readfile_addon(b, "+".join(mix), data, bounds, _states(fl), offs, flt=flt, flows=fl)
     _load_vs_spec(b, tier)
     _stream_save_sequences(b, tier, seed)
+    _stream_save_path_spellings(b, tier)
+    _stream_save_clock_rotation(b, tier)
     return b
